@@ -46,6 +46,9 @@ pub struct SpyCtl {
     /// index (in n_calls numbering) of the call to fail; -1 = none
     pub fail_at: AtomicI64,
     pub fail_persistent: AtomicBool,
+    /// every derivative call for this parameter index fails while set; -1 = none
+    /// (call indices are schedule dependent in a parallel Jacobian, the parameter index is not)
+    pub fail_deriv_k: AtomicI64,
     /// number of failures injected so far
     pub n_injected: AtomicU64,
     /// 0 = no delays; otherwise seed of the delay schedule
@@ -66,6 +69,7 @@ impl SpyCtl {
             n_deriv: AtomicU64::new(0),
             fail_at: AtomicI64::new(-1),
             fail_persistent: AtomicBool::new(false),
+            fail_deriv_k: AtomicI64::new(-1),
             n_injected: AtomicU64::new(0),
             delay_seed: AtomicU64::new(0),
             delay_max: AtomicU64::new(0),
@@ -207,7 +211,7 @@ impl<T: Sc> SeparableNonlinearModel for Spy<T> {
         c.n_deriv.fetch_add(1, SeqCst);
         c.push(idx, Call::Deriv(k), false, true, false, Vec::new());
         c.delay(k, idx);
-        if c.should_fail(idx) {
+        if c.should_fail(idx) || c.fail_deriv_k.load(SeqCst) == k as i64 {
             c.n_injected.fetch_add(1, SeqCst);
             c.push(idx, Call::Deriv(k), true, false, true, Vec::new());
             return Err(ZooError("injected derivative failure".into()));
